@@ -1,9 +1,138 @@
+import os
+import re
+
+_CALLS = {
+    "serialize": "serialize", "deserialize": "deserialize", "options": "options", "DefaultOptions::new": "defaultOptionsNew",
+    "with_fixint_encoding": "withFixint", "with_varint_encoding": "withVarint", "with_little_endian": "withLittle",
+    "with_big_endian": "withBig", "with_native_endian": "withNative", "with_limit": "withLimit", "with_no_limit": "withNoLimit",
+    "allow_trailing_bytes": "allowTrailing", "reject_trailing_bytes": "rejectTrailing", "serialize_into": "serializeInto",
+    "deserialize_from": "deserializeFrom", "serialized_size": "serializedSize",
+}
+_TERMINAL = {"serialize", "deserialize", "serialize_into", "deserialize_from", "serialized_size", "deserialize_seed",
+             "deserialize_from_seed", "deserialize_from_custom", "deserialize_in_place"}
+
+# the two generator functions with every `bincode::` call chain replaced by BINCODE[<args of the terminal call>], all
+# white space removed: pins the rest of the closures (into_tagless / from_tagless / unwrap / into) that Model/Net.lean transcribes
+_SKEL_SER = ("letroot=get_this_crate();ifis_demux{parse_quote!{#root::runtime_support::stageleft::runtime_support::fn1_type_hint::"
+             "<(#root::__staged::location::MemberId<_>,#t_type),_>(|(id,data)|{(id.into_tagless(),BINCODE[&data].unwrap().into())})}}"
+             "else{parse_quote!{#root::runtime_support::stageleft::runtime_support::fn1_type_hint::<#t_type,_>(|data|{BINCODE[&data].unwrap().into()})}}")
+_SKEL_DE = ("letroot=get_this_crate();ifletSome(c_type)=tagged{parse_quote!{|res|{let(id,b)=res.unwrap();"
+            "(#root::__staged::location::MemberId::<#c_type>::from_tagless(idas#root::__staged::location::TaglessMemberId),BINCODE[&b].unwrap())}}}"
+            "else{parse_quote!{|res|{BINCODE[&res.unwrap()].unwrap()}}}")
+
+
+def _balanced(s, i, op, cl):
+    """s[i] == op; index just after the matching cl"""
+    assert s[i] == op
+    d = 0
+    j = i
+    while j < len(s):
+        if s[j] == op:
+            d += 1
+        elif s[j] == cl:
+            d -= 1
+            if d == 0:
+                return j + 1
+        j += 1
+    raise ValueError("unbalanced " + op)
+
+
+def _fn_body(src, name):
+    m = re.search(r"\bfn\s+" + name + r"\s*\(", src)
+    if not m:
+        raise ValueError("fn %s not found" % name)
+    i = src.index("{", _balanced(src, m.end() - 1, "(", ")"))
+    return src[i + 1:_balanced(src, i, "{", "}") - 1]
+
+
+def _chains(body):
+    """[(call names up to the terminal one, args of the terminal call, start, end)] for every `bincode::` use"""
+    res = []
+    for m in re.finditer(r"(?:#root\s*::\s*)?runtime_support\s*::\s*bincode\s*::\s*", body):
+        i = m.end()
+        names, targs = [], None
+        while True:
+            pm = re.compile(r"\s*([A-Za-z_]\w*(?:\s*::\s*[A-Za-z_]\w*)*)").match(body, i)
+            if not pm:
+                raise ValueError("cannot parse the bincode call chain at: " + body[m.start():m.start() + 80])
+            name = re.sub(r"\s+", "", pm.group(1))
+            i = pm.end()
+            tf = re.compile(r"\s*::\s*<").match(body, i)
+            if tf:
+                i = _balanced(body, tf.end() - 1, "<", ">")
+            pa = re.compile(r"\s*\(").match(body, i)
+            if not pa:
+                raise ValueError("`bincode::%s` is not a call: %s" % (name, body[m.start():m.start() + 80]))
+            j = _balanced(body, pa.end() - 1, "(", ")")
+            args = body[pa.end():j - 1]
+            i = j
+            names.append(name)
+            if name in _TERMINAL:
+                targs = re.sub(r"\s+", "", args)
+                break
+            dm = re.compile(r"\s*\.").match(body, i)
+            if not dm:
+                break
+            i = dm.end()
+        res.append((names, targs, m.start(), i))
+    return res
+
+
+def _skeleton(body, chains):
+    out, k = "", 0
+    for (_, targs, a, b) in chains:
+        out += body[k:a] + "BINCODE[%s]" % (targs if targs is not None else "?")
+        k = b
+    return re.sub(r"\s+", "", out + body[k:])
+
+
+def translate(ctx):
+    """(T) the (de)serialisation expressions of the generated closures: every `bincode::` call chain in
+    serialize_bincode_with_type / deserialize_bincode_with_type goes to Gen/Networking.lean (the theorem
+    generated_closures_use_model_config evaluates it to the configuration the model implements), the rest of the
+    closure text is pinned here."""
+    path = os.path.join(ctx["repo"], "hydro_lang/src/live_collections/stream/networking.rs")
+    res = []
+    src = re.sub(r"//[^\n]*", "", open(path).read())
+    gen = {}
+    texts = {}
+    for fn, key, skel in (("serialize_bincode_with_type", "ser", _SKEL_SER), ("deserialize_bincode_with_type", "de", _SKEL_DE)):
+        body = re.sub(r"\buse\s[^;]*;", "", _fn_body(src, fn))
+        ch = _chains(body)
+        unknown = sorted({n for (ns, _, _, _) in ch for n in ns if n not in _CALLS})
+        gen[key] = [[_CALLS.get(n, "other") for n in ns] for (ns, _, _, _) in ch]
+        texts[key] = [re.sub(r"\s+", " ", body[a:b]).strip() for (_, _, a, b) in ch]
+        res.append(("networking.rs %s: %d bincode call chain(s) %s" % (fn, len(ch), [".".join(ns) for (ns, _, _, _) in ch]),
+                    len(ch) > 0 and not unknown, "unknown bincode API: %s" % unknown if unknown else ""))
+        sk = _skeleton(body, ch)
+        res.append(("networking.rs %s: closure text around the bincode calls (unwrap / into / into_tagless / from_tagless) as transcribed in Model/Net.lean" % fn,
+                    sk == skel, "" if sk == skel else "closure text changed: " + sk[:400]))
+    L = ["/- GENERATED by checks/C35.py from hydro_lang/src/live_collections/stream/networking.rs on every run. Do not edit. -/",
+         "import HvNet.Model.Bincode", "namespace HvNet.Gen", "",
+         "/-- the `bincode::` call chains (up to the terminal method) in `serialize_bincode_with_type`, in source order -/",
+         "def serChains : List (List Call) := [" + ", ".join("[" + ", ".join("." + c for c in ch) + "]" for ch in gen["ser"]) + "]",
+         "/-- the `bincode::` call chains in `deserialize_bincode_with_type`, in source order -/",
+         "def deChains : List (List Call) := [" + ", ".join("[" + ", ".join("." + c for c in ch) + "]" for ch in gen["de"]) + "]", ""]
+    for key in ("ser", "de"):
+        for t in texts[key]:
+            L.append("-- " + key + ": " + t)
+    L += ["", "end HvNet.Gen", ""]
+    out = os.path.join(ctx["verif"], "lean", "HvNet", "HvNet", "Gen", "Networking.lean")
+    os.makedirs(os.path.dirname(out), exist_ok=True)
+    new = "\n".join(L)
+    if not os.path.exists(out) or open(out).read() != new:
+        with open(out, "w") as f:
+            f.write(new)
+    return res
+
+
 SPEC = dict(
     id="C35",
     lean_project="HvNet", props_module="HvNet.Props.C35", driver="hvdrv_net",
     harness="hv_net", bin="hv_net", mode="c35",
     cases={"quick": 1500, "thorough": 40000},
     level="proof",
+    translate=translate,
     design_ref="DESIGN.md §5 C35",
     technique="Lean 4 proof by induction on the payload value/descriptor (bincode wire format, demux routing) + differential correspondence with the send/receive closures emitted by the production Hydro code generator",
     level_text=("Theorems: for every well-typed value of every payload descriptor (fixed-width LE ints u8..u128/i8..i128, bool, char, "
@@ -17,7 +146,23 @@ SPEC = dict(
                 "serialize_bincode_with_type / deserialize_bincode_with_type are the generated ones; the harness runs them in-process, "
                 "routes cluster sends through the real sinktools::demux_map, and diffs bytes, decoded values (also of truncated / "
                 "bit-flipped / random byte strings: same value or same error), deliveries and panics against the compiled Lean model; "
-                "an independent oracle checks round trip, addressee-only delivery, sender tags and MemberId round trip on the real code."),
+                "an independent oracle checks round trip, addressee-only delivery, sender tags and MemberId round trip on the real code. "
+                "Configuration tie (T): a translator re-extracts on every run every `bincode::` call chain of serialize_bincode_with_type / "
+                "deserialize_bincode_with_type into Gen/Networking.lean; generated_closures_use_model_config proves (decide) that each chain "
+                "denotes the configuration the codec implements (fixint, little endian, NO size limit, trailing bytes allowed), the rest of "
+                "the closure text (unwrap / into / into_tagless / from_tagless) is pinned textually. Large payloads: every channel whose type "
+                "holds a Vec/String is driven with values whose encodings are 65535, 65536, 70 KiB, 200 KiB, 1 MiB (thorough: up to 4 MiB) "
+                "through the real send closure and the plain, the tagged and the demuxed+tagged receive closures; the oracle compares the "
+                "reconstructed value exactly; the model works on a compact description (spine + repeat count) and is compared by length and "
+                "position-sensitive checksum of the encoding (rope_bytes, rope_len_ck: these are length/checksum of the model's encoding of the "
+                "expanded value; big_payload_roundtrip: the receive closures reconstruct it whatever its size). Back-pressure: DemuxMap's "
+                "poll_ready / poll_flush / poll_close are transcribed (try_fold + ready_both!) over scripted member sinks that stall "
+                "independently; demux_poll_polls_every_member, demux_poll_ready_iff_all_ready, demux_flush/close_healthy_member_delivered, "
+                "demux_deliver_despite_stall (one Pending member does not keep the items of the others from being flushed; Ready only when all "
+                "are), demux_poll_order_independent; the harness drives the real sinktools::demux_map over such sinks (2-3 members; all op "
+                "sequences of length 3 (thorough: 4) over snd/flush/close x flush scripts {r,p,pr} x close scripts {r,p}, plus random scripts "
+                "and sequences), each case on 24 fresh maps (HashMap order is random per map), answers diffed against the model, oracle: every "
+                "member sink polled once per call, Ready iff all ready, every item sent to a non-stalled member is delivered after flush/close."),
     level_note=("Trusted: Lean kernel + propext/Classical.choice/Quot.sound; serde derive and the bincode crate are modelled by the wire "
                 "format (exercised on sampled values only); the descriptor of each Rust payload type is written by hand in the harness "
                 "(a wrong descriptor shows up as a byte disagreement); floats, maps and recursive types are outside the descriptor "
@@ -25,10 +170,15 @@ SPEC = dict(
                 "transport between network_out and network_in is the harness (demux_map over in-memory sinks), not TCP: the sender tag "
                 "attached to each message is supplied by that transport (in production by hydro_deploy's connection handling); what "
                 "is verified is that the generated tagged receive closure hands exactly that tag to the user through from_tagless "
-                "and that the demux send closure hands exactly the addressed id to the transport through into_tagless."),
+                "and that the demux send closure hands exactly the addressed id to the transport through into_tagless. The bincode API "
+                "vocabulary and what each builder method does to the configuration (Config.set / Config.ofChain) is transcribed by hand from "
+                "bincode 1.3.3. Large values are spines ending in vec![v; n] or a String of n copies of one char (not arbitrary large values). "
+                "The scripted member sinks are infallible: the error branch (`?`) of DemuxMap's folds is not modelled or exercised."),
     trusted_base=["serde derive + bincode 1.3.3 modelled by their wire format; exercised by correspondence on sampled values",
                   "hand-written descriptor per Rust payload type in harness/hv_net/src/val.rs",
-                  "in-process transport (sinktools::demux_map over for_each sinks) instead of hydro_deploy's TCP/demux wiring"],
+                  "in-process transport (sinktools::demux_map over for_each sinks) instead of hydro_deploy's TCP/demux wiring",
+                  "checks/C35.py translator (regex extraction of the bincode call chains) and the hand-transcribed meaning of bincode's option setters",
+                  "scripted buffering member sinks stand for per-member connection sinks"],
     assumptions=["payload types are built from the descriptor universe (no f32/f64, maps, recursive types)",
                  "64-bit target (usize/isize travel as 8 bytes)",
                  "TaglessMemberId::Legacy is the only variant (features embedded_runtime/deploy)"],
